@@ -10,7 +10,7 @@ from typing import Tuple
 import inspect
 
 USED_SOURCES = {}
-# Full path of the file behind each entry of USED_SOURCES
+# Full path, modification time and size of the file behind each entry of USED_SOURCES
 _SOURCE_PATHS = {}
 REFS = []
 
@@ -71,14 +71,17 @@ class SourceRef:
         src = None
         try:
             path = os.path.abspath(backend_frame.f_code.co_filename)
-            # Sources are listed by base name; re-read when another file of that name is used.
-            if filename not in USED_SOURCES or _SOURCE_PATHS.get(filename) != path:
+            stat = os.stat(path)
+            stamp = (path, stat.st_mtime_ns, stat.st_size)
+            # Sources are listed by base name; re-read when another file of that name is used,
+            # or when the file was changed since it was read (edited and compiled again).
+            if filename not in USED_SOURCES or _SOURCE_PATHS.get(filename) != stamp:
                 with open(
                     f"{backend_frame.f_code.co_filename}", encoding="utf-8"
                 ) as file:
                     src = file.read()
                 USED_SOURCES[filename] = src
-                _SOURCE_PATHS[filename] = path
+                _SOURCE_PATHS[filename] = stamp
             else:
                 src = USED_SOURCES[filename]
         except OSError:
